@@ -1,18 +1,223 @@
 """C07 -- rendering and re-parsing is the identity, in every output mode.
 
-Bounded: the four real renderers are run on every forest up to a size bound
-with leaves from a lexeme alphabet chosen for the boundaries the property
-names; each rendering is tokenised by the reference reader (must equal the
-flat token sequence of the input) and re-parsed by ddSMT's parser (must be
-structurally the input).
+Tier S (this file): the four real renderers are interpreted on every forest
+shape up to a bound with *symbolic* leaf texts (any text; a leaf is a comment
+iff it starts with ';').  The produced text is a concatenation of literal
+pieces and leaf texts; discharged structurally per path:
+
+* every leaf text occurs exactly once, verbatim, in depth-first order;
+* everything else is white space or a parenthesis, and the parentheses,
+  interleaved with the leaves, spell exactly the flat token sequence of the
+  input (nothing split, merged, reordered or swallowed);
+* two adjacent leaves are separated by white space, and a comment is
+  followed by a newline before the next token.
+
+So for leaves that are lexemes the rendering tokenises to the input's token
+sequence, for all leaf contents.  Bounded (harness/parser_native.py): the
+same on concrete lexemes through an independent reader, plus re-parsing.
 """
-from pyvc.api import Contract, NativeCheck
+import itertools
+import types
+
+import z3
+
+from pyvc import mk, sym
+from pyvc.api import Contract, NativeCheck, outcome
+from pyvc.interp import ObjVal, PyRaise
+from pyvc.sym import SStr, mk_bool
+from . import env, nodemodel as nm
+from . import c12
+from .c06 import GhostFS, FileObj, install_fs
 
 PROPERTY = 'C07'
 
 
+class StringIOModel:
+
+    def __init__(self):
+        self.text = ''
+
+    def write(self, s):
+        if not isinstance(s, (str, SStr)):
+            raise PyRaise(TypeError('string argument expected'))
+        self.text = self.text + s
+        return 0
+
+    def getvalue(self):
+        return self.text
+
+
+StringIOModel.__module__ = 'contracts.c07'
+
+
+def setup(eng):
+    eng._fs = {'fs': GhostFS({})}
+    eng._ns = env.static_options(eng)
+    install_fs(eng, eng._fs)
+    nm.install(eng)
+    eng.native_modules['io'] = types.SimpleNamespace(StringIO=StringIOModel)
+
+
+def forest_shapes(maxn):
+    from .c11 import forest_shapes as fs
+    return [f for f in fs(maxn, 2) if f]
+
+
+def build(eng, p, shape, tag, leaves, top=True):
+    cls = nm.node_class(eng)
+    o = ObjVal(cls)
+    o.tag = {'name': tag}
+    o.attrs['id'] = sym.SNum(p.fresh_int('id_' + tag))
+    o.attrs['hash'] = 0
+    if shape is None:
+        t = p.fresh_str('txt_' + tag)
+        # leaves obtainable from the parser are never empty
+        p.assume(z3.Length(t) > 0)
+        if not top:
+            # a comment inside a list ends with its line break (the parser
+            # keeps it; only a comment that ends the input may lack it)
+            p.assume(z3.Implies(z3.PrefixOf(z3.StringVal(';'), t),
+                                z3.SuffixOf(z3.StringVal('\n'), t)))
+        o.attrs['data'] = sym.mk_str([('v', t)])
+        o.tag['top'] = top
+        leaves.append(o)
+    else:
+        o.attrs['data'] = tuple(build(eng, p, s, f'{tag}_{i}', leaves, False)
+                                for i, s in enumerate(shape))
+    return o
+
+
+def flat_marks(node, out):
+    d = node.attrs['data']
+    if isinstance(d, (str, SStr)):
+        out.append(node)
+    else:
+        out.append('(')
+        for c in d:
+            flat_marks(c, out)
+        out.append(')')
+    return out
+
+
+def check_rendering(eng, p, N, text, forest, leaves):
+    """The structural obligations on the rendered text."""
+    parts = list(text.parts) if isinstance(text, SStr) else (
+        [('c', text)] if text else [])
+    # project: leaf markers, parentheses; everything else must be blank
+    leaf_of = {str(l.attrs['data'].parts[0][1]): l for l in leaves}
+    seq = []
+    gaps = ['']
+    ok_blank = True
+    for k, v in parts:
+        if k == 'v' and str(v) in leaf_of:
+            seq.append(leaf_of[str(v)])
+            gaps.append('')
+        elif k == 'c':
+            gaps[-1] += v
+            for ch in v:
+                if ch in '()':
+                    seq.append(ch)
+                elif ch not in ' \n':
+                    ok_blank = False
+        else:
+            ok_blank = False
+    want = []
+    for t in forest:
+        flat_marks(t, want)
+    p.oblige(f'{N}/only-blanks-and-parentheses-besides-leaf-texts', ok_blank,
+             info=repr(text)[:300])
+    same = len(seq) == len(want) and all(
+        (a is b) if isinstance(b, ObjVal) else a == b
+        for a, b in zip(seq, want))
+    p.oblige(f'{N}/tokens-in-order-each-exactly-once', same,
+             info={'rendering': repr(text)[:300], 'signature':
+                   'a token is missing, duplicated, reordered or the '
+                   'parentheses do not match the input'})
+    if not same:
+        return
+    # separation: between two leaves that are adjacent in the token sequence
+    # there is white space; after a comment a newline comes first
+    leaf_positions = [i for i, x in enumerate(seq) if isinstance(x, ObjVal)]
+    sep_ok = True
+    nl_ok = True
+    g = 1
+    for idx, i in enumerate(leaf_positions):
+        gap_after = gaps[idx + 1]
+        leaf = seq[i]
+        is_comment = eng.truth(leaf.attrs['data'].startswith(';'))
+        if is_comment and leaf.tag.get('top') and gap_after and \
+                not gap_after.startswith('\n'):
+            # a top-level comment may lack its line break: it must be
+            # terminated before anything else follows
+            nl_ok = False
+        nxt = seq[i + 1] if i + 1 < len(seq) else None
+        if isinstance(nxt, ObjVal) and not any(ch in ' \n'
+                                               for ch in gap_after):
+            sep_ok = False
+    p.oblige(f'{N}/adjacent-tokens-are-separated', sep_ok,
+             info={'rendering': repr(text)[:300], 'signature':
+                   'two tokens are written without white space between '
+                   'them'})
+    p.oblige(f'{N}/comment-is-terminated-by-a-newline', nl_ok,
+             info={'rendering': repr(text)[:300], 'signature':
+                   'a comment swallows the tokens that follow it'})
+
+
+def make_run(mode, shapes_):
+
+    def run(eng, p):
+        eng._ns.pretty_print = mode == 'pretty'
+        eng._ns.wrap_lines = mode == 'wrap'
+        # the wrapping renderer uses token lengths / newline positions only
+        # for its column bookkeeping: arbitrary integers (over-approximation)
+        sym.ABSTRACT_METRICS[0] = mode == 'wrap'
+        nodeio = eng.load_module('ddsmt.nodeio')
+        leaves = []
+        forest = [build(eng, p, s, f't{i}', leaves)
+                  for i, s in enumerate(shapes_)]
+        N = f'C07/render[{mode}]'
+        if mode == 'checking':
+            fs = GhostFS({})
+            eng._fs['fs'] = fs
+            o = outcome(eng, nodeio.g['write_smtlib_for_checking'],
+                        ['/tmp/cand.smt2', forest])
+            text = fs.files.get('/tmp/cand.smt2', '')
+        else:
+            o = outcome(eng, nodeio.g['write_smtlib_to_str'], [forest])
+            text = o.value if o.kind == 'return' else ''
+        p.oblige(f'{N}/raises-nothing', o.kind == 'return', info=repr(o))
+        if o.kind != 'return':
+            return
+        check_rendering(eng, p, N, text, forest, leaves)
+
+    return run
+
+
 def contracts(tier):
-    return []
+    maxn = 4 if tier == 'thorough' else 3
+    shapes_ = forest_shapes(maxn)
+    cs = []
+    for mode in ('default', 'pretty', 'wrap', 'checking'):
+
+        def run(eng, p, mode=mode):
+            k = p.choose(len(shapes_), 'shape')
+            make_run(mode, shapes_[k])(eng, p)
+
+        cs.append(Contract(
+            f'C07/render[{mode}]',
+            ['ddsmt.nodeio.write_smtlib', 'ddsmt.nodeio.__write_smtlib',
+             'ddsmt.nodeio.__write_smtlib_pretty',
+             'ddsmt.nodeio.__write_smtlib_wrapped',
+             'ddsmt.nodeio.write_smtlib_for_checking'],
+            run, setup=setup, tier='S', max_paths=200000,
+            bound=f'forests of <= 2 trees with <= {maxn} nodes; leaf texts '
+            'symbolic (any non-empty text; comment iff it starts with ";")',
+            assumptions=['io.StringIO / file objects modelled as string '
+                         'accumulators; leaves of parser output are never '
+                         'empty; in the wrapping renderer len()/rfind() of a '
+                         'token are arbitrary integers (over-approximation '
+                         'of the column bookkeeping)']))
+    return cs
 
 
 def native_checks(tier):
@@ -26,7 +231,7 @@ def native_checks(tier):
                      'ddsmt.nodeio.__write_smtlib_wrapped',
                      'ddsmt.nodeio.parse_smtlib'],
                     'harness/parser_native.py', ['render', n],
-                    bound=f'forests of <= 2 trees, <= {n} nodes, 12 leaf '
+                    bound=f'forests of <= 2 trees, <= {n} nodes, 15 leaf '
                     'lexemes (long token, hyphens, literals with space / '
                     '"" / ( / ;, quoted symbols with space / newline, '
                     'comment, #b, keyword) + 8 wide inputs forcing wraps',
